@@ -6,6 +6,7 @@ CONSTANTS
   BinOps <- MC_OpsLines
   Maps <- MC_MapsLines
   OnePairs <- MC_PairsDeep
+  Routes = {}
   MaxUnits = 5
   MinUnits = 0
   MaxDepth = 1
